@@ -3,6 +3,7 @@ package props
 import (
 	"bytes"
 	"fmt"
+	"os"
 	"reflect"
 	"strings"
 	"sync"
@@ -89,6 +90,66 @@ func c20LiveErrors(err error) (out []c20LiveErr, ok bool) {
 	return out, true
 }
 
+func c20Work() string { return os.Getenv("VERIF_WORK") }
+
+// c20Big: inputs beyond any plausible size guard of an entry point (1 MiB of
+// layout between two clauses, a literal of more than 1 MiB, a tail the grammar
+// rejects after 1 MiB), through every entry point.
+func c20Big(c *mon.Ctx) {
+	blanks := strings.Repeat(" ", 1<<20)
+	inputs := []string{
+		"foo == 1" + blanks + " and bar == 2",
+		"foo == 1" + blanks + ") bar",
+		"foo == \"" + strings.Repeat("x", 1<<20+17) + "\"",
+		blanks + "foo == 1",
+		"foo == 1 and bar in baz" + strings.Repeat("\n", 1<<20+3),
+	}
+	old := c20Machine.MaxSteps
+	c20Machine.MaxSteps = 400_000_000
+	defer func() { c20Machine.MaxSteps = old }()
+	for i, s := range inputs {
+		data := []byte(s)
+		c.Risk(fmt.Sprintf("e2e big input %d", i))
+		ref := c20Machine.Run("", data)
+		if ref.Aborted != "" {
+			c.Count("e2e_reference_gave_up")
+			continue
+		}
+		for _, via := range []string{"Parse", "ParseReader", "ParseFile"} {
+			var val any
+			var err error
+			t := mon.Try(func() {
+				switch via {
+				case "Parse":
+					val, err = grammar.Parse("", data)
+				case "ParseReader":
+					val, err = grammar.ParseReader("", bytes.NewReader(data))
+				default:
+					if c20Work() == "" {
+						val, err = grammar.Parse("", data)
+						return
+					}
+					path := fmt.Sprintf("%s/c20-big-%d.bexpr", c20Work(), os.Getpid())
+					if os.WriteFile(path, data, 0o600) != nil {
+						val, err = grammar.Parse("", data)
+						return
+					}
+					val, err = grammar.ParseFile(path)
+					os.Remove(path)
+				}
+			})
+			c.Evals(1)
+			if t.Panic || ref.Accepted() != (err == nil) || (ref.Accepted() && !reflect.DeepEqual(ref.Val, val)) {
+				c.Violation("C20 end-to-end big-input via="+via, "on an input of more than 1 MiB the shipped parser and grammar.peg interpreted directly disagree",
+					map[string]any{"input_shape": clip(strings.ReplaceAll(s[:30], "\n", "\\n"), 40) + fmt.Sprintf("... (%d bytes)", len(s)), "via": via, "grammar_accepts": ref.Accepted(), "shipped_error": fmt.Sprint(err), "panic": t.PanicVal,
+						"shipped_value": clip(fmt.Sprintf("%#v", val), 200), "grammar_value": clip(fmt.Sprintf("%#v", ref.Val), 200)})
+				break
+			}
+		}
+		c.Count("e2e_big_inputs")
+	}
+}
+
 func c20Input(c *mon.Ctx, idx, k int) (entry string, s string, origin string) {
 	r := c.RNG(idx, k)
 	switch p := r.Intn(20); {
@@ -129,6 +190,9 @@ func c20E2E(c *mon.Ctx, g *pegread.Grammar, batch int) {
 		c.Count("reference_actions_not_compiled_in")
 		return
 	}
+	if batch == 0 {
+		c20Big(c)
+	}
 	for k := 0; k < c20BatchSize; k++ {
 		entry, s, origin := c20Input(c, batch, k)
 		data := []byte(s)
@@ -145,14 +209,29 @@ func c20E2E(c *mon.Ctx, g *pegread.Grammar, batch int) {
 		var val any
 		var err error
 		viaReader := (batch+k)%11 == 0
+		viaFile := (batch+k)%11 == 5 && c20Work() != ""
 		c.Risk("e2e " + clip(fmt.Sprintf("%q", s), 100))
 		t := mon.Try(func() {
-			if viaReader {
+			switch {
+			case viaReader:
 				val, err = grammar.ParseReader("", bytes.NewReader(data), opts...)
-			} else {
+			case viaFile:
+				path := fmt.Sprintf("%s/c20-%d.bexpr", c20Work(), os.Getpid())
+				if werr := os.WriteFile(path, data, 0o600); werr != nil {
+					viaFile = false
+					val, err = grammar.Parse("", append([]byte(nil), data...), opts...)
+					return
+				}
+				val, err = grammar.ParseFile(path, opts...)
+				os.Remove(path)
+				c.Count("e2e_via_ParseFile")
+			default:
 				val, err = grammar.Parse("", append([]byte(nil), data...), opts...)
 			}
 		})
+		if viaReader {
+			c.Count("e2e_via_ParseReader")
+		}
 		c.Evals(1)
 		c.Count("e2e_inputs")
 		c.Count("e2e_origin:" + origin)
@@ -161,7 +240,7 @@ func c20E2E(c *mon.Ctx, g *pegread.Grammar, batch int) {
 			ent = "(start)"
 		}
 		detail := func() map[string]any {
-			return map[string]any{"input": clip(s, 300), "input_quoted": clip(fmt.Sprintf("%q", s), 400), "entry_rule": ent, "origin": origin, "via": map[bool]string{true: "ParseReader", false: "Parse"}[viaReader],
+			return map[string]any{"input": clip(s, 300), "input_quoted": clip(fmt.Sprintf("%q", s), 400), "entry_rule": ent, "origin": origin, "via": map[bool]string{true: "ParseReader", false: map[bool]string{true: "ParseFile", false: "Parse"}[viaFile]}[viaReader],
 				"grammar_peg_interpreted": fmt.Sprintf("matched=%v value=%s errors=%v", ref.Matched, clip(fmt.Sprintf("%#v", ref.Val), 300), ref.Errs),
 				"shipped_parser":          fmt.Sprintf("value=%s err=%v panic=%v", clip(fmt.Sprintf("%#v", val), 300), err, t.PanicVal)}
 		}
